@@ -154,6 +154,7 @@ type Machine struct {
 	curSt    *State
 	hpkg     *ssa.Package
 	skipGo   []string
+	replace  map[string]string
 	curIn    ssa.Instruction
 }
 
